@@ -5,6 +5,7 @@ import (
 	"fmt"
 	"io"
 	"net"
+	"sync/atomic"
 	"time"
 
 	"github.com/scrapli/scrapligo/driver/options"
@@ -51,6 +52,9 @@ type C15 struct {
 	// Prior: the same transport object went through an earlier opening that broke off in the
 	// middle of a negotiation sequence after these bytes (the server hung up)
 	Prior []byte `json:"prior,omitempty"`
+	// LockStep: the server sends a segment only once every request it has sent so far was answered
+	// (or it has waited two socket timeouts for that), as servers that negotiate in rounds do
+	LockStep bool `json:"lock_step,omitempty"`
 }
 
 func (sc *C15) opening() []byte {
@@ -89,7 +93,7 @@ func genC15(seed uint64, run int, tier string) Scenario {
 		switch k {
 		case "neg":
 			it.Verb = pick(r, byte(tDO), byte(tDONT), byte(tWILL), byte(tWONT))
-			it.Opt = pick(r, byte(tSGA), byte(tSGA), byte(1), byte(24), byte(31), byte(32), byte(0), byte(r.IntN(250)))
+			it.Opt = pick(r, byte(tSGA), byte(tSGA), byte(1), byte(24), byte(31), byte(32), byte(0), byte(r.IntN(250)), byte(r.IntN(256)), byte(between(r, 240, 255)))
 		case "cmd":
 			it.Cmd = byte(between(r, 241, 249)) // NOP .. GA
 		case "data":
@@ -118,6 +122,7 @@ func genC15(seed uint64, run int, tier string) Scenario {
 		sc.Prior = pick(r, []byte{tIAC}, []byte{tIAC, tDO}, []byte{tIAC, tWILL}, []byte("ab\xff"), []byte{tIAC, tDO, 1, tIAC, tDONT})
 	}
 	sc.Client = simnet.NetPlan{SegMode: pick(r, "whole", "random"), Seed: r.Uint64()}
+	sc.LockStep = r.IntN(4) == 0
 
 	return sc
 }
@@ -164,22 +169,50 @@ func runC15(env *Env, s Scenario) {
 	go func() {
 		k.Enter("telnet.server")
 		k.Yield("server.start")
-		off := 0
-		for i, l := range sc.SegLens {
-			time.Sleep(time.Duration(sc.GapsUS[i]) * time.Microsecond)
-			_, _ = server.Write(open[off : off+l])
-			off += l
-		}
-		// drain replies while waiting for the negotiation window to pass
+		// drain replies (from the start: a lock-step server counts them)
+		var rx atomic.Int64
 		go func() {
 			k.Enter("telnet.server.rx")
 			buf := make([]byte, 64)
 			for {
-				if _, err := server.Read(buf); err != nil {
+				n, err := server.Read(buf)
+				rx.Add(int64(n))
+				if err != nil {
 					return
 				}
 			}
 		}()
+		// end offsets of the option requests in the opening
+		var negEnd []int
+		pos := 0
+		for _, it := range sc.Items {
+			switch it.Kind {
+			case "neg":
+				pos += 3
+				negEnd = append(negEnd, pos)
+			case "cmd", "esc":
+				pos += 2
+			default:
+				pos += len(it.Text)
+			}
+		}
+		off := 0
+		for i, l := range sc.SegLens {
+			time.Sleep(time.Duration(sc.GapsUS[i]) * time.Microsecond)
+			if sc.LockStep {
+				need := 0
+				for _, e := range negEnd {
+					if e <= off {
+						need += 3
+					}
+				}
+				for waited := time.Duration(0); rx.Load() < int64(need) && waited < 2*tsock; waited += tsock / 64 {
+					time.Sleep(tsock / 64)
+				}
+			}
+			_, _ = server.Write(open[off : off+l])
+			off += l
+		}
 		time.Sleep(2 * tsock)
 		if sc.Tail != "" {
 			_, _ = server.Write([]byte(sc.Tail))
